@@ -93,7 +93,8 @@ class Result:
 
 # ------------------------------------------------------------------------------------------------
 def run_mc(res: Result, name: str, ops: list[str], maxcalls: int, limits: list[int], maxm: list[int],
-           invariants: list[str], emit_from: int | None, netmode: str = "all2", timeout: float = 3000.0) -> list[dict]:
+           invariants: list[str], emit_from: int | None, netmode: str = "all2", timeout: float = 3000.0,
+           failats: list[int] = (0,)) -> list[dict]:
     wd = os.path.join(WORK, res.pid, "mc_" + name)
     shutil.rmtree(wd, ignore_errors=True)
     os.makedirs(wd)
@@ -101,7 +102,7 @@ def run_mc(res: Result, name: str, ops: list[str], maxcalls: int, limits: list[i
     invs = list(invariants) + (["Emit"] if emit_from is not None else [])
     tlc.write_cfg(cfg, invariants=invs, view="view",
                   constants={"MaxCalls": maxcalls, "NetMode": f'"{netmode}"', "Limits": tlc.tla_set(limits),
-                             "MaxM": tlc.tla_set(maxm), "Ops": tlc.tla_set(ops),
+                             "MaxM": tlc.tla_set(maxm), "Ops": tlc.tla_set(ops), "FailAts": tlc.tla_set(list(failats)),
                              "EmitFrom": emit_from if emit_from is not None else 99})
     r = tlc.model_check("MC_SD", cfg, wd, timeout=timeout)
     res.cov["states"] += r["distinct"]
@@ -121,7 +122,11 @@ def tasks_from_emitted(recs: list[dict], rng: random.Random, k: int, prefix: str
         recs = rng.sample(recs, k)
     tasks = []
     for i, r in enumerate(recs):
-        ops = gen.hist_to_ops(r["hist"]) + (tail or [])
+        ops = gen.hist_to_ops(r["hist"])
+        if r.get("failat"):
+            for o in ops:
+                o["fail_at"] = r["failat"]
+        ops = ops + (tail or [])
         cfg = {"maxm": r["maxm"], "candlim": 100000, "rsthr": 1000, "simbudget": 1000, "nfvsthr": 2000}
         tasks.append({"tid": f"{prefix}{i}", "tt": r["net"]["f"], "ops": ops, "cfg": cfg, "meta": "tlc-history"})
     return tasks
@@ -155,6 +160,9 @@ def execute_and_validate(res: Result, tasks: list[dict], invariants: list[str], 
         tr = json.loads(ln)
         traces[tr["tid"]] = tr
     res.cov["traces_validated_against_impl"] += out["traces"]
+    res.cov["states"] += out["states"]            # TLC states of the trace validation runs
+    res.cov["transitions"] += out["generated"]
+    res.cov["trace_validation_states"] = res.cov.get("trace_validation_states", 0) + out["states"]
     res.cov["evaluations"] += sum(len(t["events"]) for t in traces.values())
     seen = set()
     for tr in traces.values():
